@@ -7,8 +7,8 @@ model (lean/Drivers/C20.lean answers every wire command and every read of an inv
 proof: lean/CashewsVerif/Props/C20.lean.
 tie:   generated histories of commands by 2-3 clients, delivery forced after every command (every connected listener is
        pumped until its queue is empty), virtual-time advances across TTLs, drops of the invalidation connection and
-       reconnects; compared per command: result == model; and the property itself: every read (get, get_many, exists)
-       == what the server holds at that moment.
+       reconnects; compared per command: result == model; and the property itself: every read (get, get_many, exists,
+       scan, get_match) == what the server holds at that moment.
 """
 from __future__ import annotations
 
@@ -34,8 +34,8 @@ TRUSTED = [
 PARTIAL = (
     "Decided relative to models of redis-py and of the server (tracking included), neither validated against the real thing. Quiescent points "
     "only (delivery completed between commands): interleavings of a command with in-flight announcements are not explored. Not exhibited: "
-    "late expiry announcements of a real server, get_many with repeated keys, expire(k, 0), scan/get_match/get_expire/get_size through the "
-    "client-side backend, the local copy's capacity, server down (C19), more than 3 clients."
+    "late expiry announcements of a real server, get_many with repeated keys, get on a key locked with a raw token, get_size, more than one SCAN page, the local copy's capacity, "
+    "server down (C19), more than 3 clients. get_expire's answer is compared with the model only (the code lets it differ from the server's)."
 )
 KNOWN_SIGS = {
     "D28": "D28:negative-int-not-read-back",
@@ -61,7 +61,7 @@ def classify(steps, i) -> str | None:
     s = steps[i]
     op = s["op"]
     c = op[1]
-    keys = [op[2]] if op[0] in ("get", "exists") else list(op[2])
+    keys = [op[2]] if op[0] in ("get", "exists") else list(op[2]) if op[0] == "getmany" else ch.KEYS
     if op[0] in ("get", "getmany") and "=" in s["impl"] and "=" in (s["server"] or ""):
         a, b = s["impl"].split("=", 1)[1].split(","), s["server"].split("=", 1)[1].split(",")
         if len(a) == len(b) and all(x == y or (x == "-" and y.startswith("i:-")) for x, y in zip(a, b)):
@@ -125,6 +125,14 @@ def stats_of(steps) -> set[str]:
         if op[0] == "reconnect":
             dropped.discard(op[1])
             st.add("reconnect")
+        if op[0] in ("getmatch", "scan") and (s["server"] or "")[3:]:
+            st.add("pattern_read_nonempty")
+        if op[0] == "getexpire" and s["impl"].startswith("n=") and int(s["impl"][2:]) > 0:
+            st.add("get_expire_positive")
+        if op[0] == "expire" and op[3] == 0:
+            st.add("expire_zero")
+        if op[0] == "incr" and op[4] is not None:
+            st.add("incr_with_ttl")
         if op[0] in ("get", "exists") and op[1] in dropped:
             st.add("read_while_disconnected")
         if op[0] == "set" and op[5] != "a" and s["impl"] == "F":
@@ -273,8 +281,9 @@ def run(chk: Check) -> int:
             "evaluations": ctx.evaluations,
             "distinct_nontrivial": len(ctx.distinct),
             "rule": "histories of 2..30 commands issued by 2 or 3 real BcastClientSide instances sharing one modelled server, generated from "
-                    "VERIF_SEED (reads, writes, conditional writes followed by a read, increments, deletes, pattern deletes, re-timing, flush, "
-                    "locks, time advances of 0..5 s, drops and reconnects of the invalidation connection); every connected listener is pumped "
+                    "VERIF_SEED (reads, pattern reads (scan, get_match), get_expire, writes, pipelined writes, conditional writes followed by a "
+                    "read, increments with and without a TTL, deletes, pattern deletes, re-timing, flush, locks, time advances of 0..5 s, "
+                    "drops and reconnects of the invalidation connection); every connected listener is pumped "
                     "until its queue is empty after every command; a case is non-trivial iff it reached an interesting state "
                     "(interesting_states_cases); distinct = distinct (clients, ops)",
             "samples": ctx.samples,
